@@ -25,7 +25,7 @@ RULE = (
     "non-trivial = solved AND (>= 2 routes with distinct weights, or a walk traversing an edge twice, or an ignored "
     "element, or node origin); distinct = case hash."
 )
-ASSUMPTIONS = ["flows are conserving by construction (planted); float data are dyadic so conservation holds exactly"]
+ASSUMPTIONS = ["flows are conserving by construction (planted) except in the separately labelled perturbed-data class (one value zeroed or shifted by 1, nothing claimed about solvability there); float data are dyadic so conservation holds exactly"]
 BUDGET = {"quick": {"examples": 1800, "deadline_s": 90}, "thorough": {"examples": 30000, "deadline_s": 900}}
 
 FD = ["kFlowDecomp", "MinFlowDecomp", "kFlowDecompCycles", "MinFlowDecompCycles"]
@@ -85,6 +85,15 @@ def strategy_(draw, tier):
                 if "flow" in d:
                     d["flow"] = int(d["flow"])
             case["meta"]["int_data_float_type"] = True
+    # perturbed data: one weighted element is zeroed (or shifted) after planting, so the instance is usually no longer
+    # decomposable. Nothing is claimed about solvability; but whatever is reported solved must still explain every value.
+    if draw(st.integers(0, 5)) == 0:
+        items = [d for _n, d in case["graph"]["nodes"] if "flow" in d] + [d for _u, _v, d in case["graph"]["edges"] if "flow" in d]
+        if items:
+            d = items[draw(st.integers(0, len(items) - 1))]
+            how = draw(st.sampled_from(["zero", "zero", "plus", "minus"]))
+            d["flow"] = type(d["flow"])(0) if how == "zero" else max(type(d["flow"])(0), d["flow"] + (1 if how == "plus" else -1))
+            case["meta"]["perturbed"] = how
     return case
 
 
@@ -121,6 +130,8 @@ def run_case(case, tier="quick"):
         labels.add("int_data_float_type")
     if (case.get("meta") or {}).get("fractional_data_int_type"):
         labels.add("fractional_data_int_type")
+    if (case.get("meta") or {}).get("perturbed"):
+        labels.add("perturbed_data")
     try:
         r = run_model(case, tier)
     except Exception as e:
